@@ -60,7 +60,7 @@ func main() {
 	thorough := run.Thorough()
 
 	cfg := tierCfg{fullLen: 300, kFull: 2, fullLen2: 300, radius: 8, maxCand: 300, singlesAll: 8192,
-		splitAllLen: 300, wsSplitAll: 0, splitRadius: 4, oneByteLimit: 1200, wsSinglesAll: 400, wsPairRadius: 8, wsSplitRadius: 4,
+		splitAllLen: 160, wsSplitAll: 0, splitRadius: 4, oneByteLimit: 1200, wsSinglesAll: 400, wsPairRadius: 8, wsSplitRadius: 4,
 		bigLen: 20000, httpFull2: 200, httpFull3: 0}
 	seqMax := 2
 	if thorough {
@@ -83,7 +83,7 @@ func main() {
 		"Alphabet: %d elements (requests with/without body, IPv6+query URL, '@' in path/query, OPTIONS *, multi-valued and 255 headers, user-info, every standard method; responses default/custom/empty reason, body; "+
 		"frames len 0,1,2,65535 on channels 0,1,36,255 with payloads that look like a frame/response/request) plus 6 elements exactly at the limits. Sequences: every single element, every sequence of 2 of the %d sequence-alphabet elements%s. "+
 		"Carriers: direct, direct through the server's protocol sniffing, HTTP tunnel (base64), WebSocket client->server and server->client. "+
-		"Reads: one read; all 1-byte reads; direct: every partition with <= %d cut points for streams <= %d bytes and with <= 2 for streams <= %d bytes; base64 text: every partition with <= 3 cuts up to %d chars, <= 2 cuts up to %d chars; "+
+		"Reads: one read; all 1-byte reads; direct: every partition with <= %d cut points for streams <= %d bytes and with <= 2 for streams <= %d bytes; base64 text: every partition with <= 3 cuts up to %d chars (0 = none in this tier), <= 2 cuts up to %d chars; "+
 		"longer streams: every single cut (streams <= %d bytes) and every pair of cuts within %d bytes of a write boundary, header line end or CRLF (only write boundaries when that set exceeds %d positions; streams > %d bytes: pairs within 4 bytes of write boundaries); "+
 		"server sniffing: every single cut (streams <= 1000 bytes) and all pairs among the first 8 bytes and the element boundaries; WebSocket: every single cut (streams <= %d bytes) and all pairs within %d bytes of a message frame boundary; thorough adds all triples near write boundaries. "+
 		"Writes: one per element; for the tunnels additionally all elements in one write and every split of the stream into 2 writes (HTTP: every position for raw streams <= %d bytes, WebSocket <= %d bytes, else next to element boundaries/CRLFs) with all <=2 cuts within %d (WebSocket %d) bytes of the block boundary. "+
